@@ -33,7 +33,7 @@ func (l *dependencyLoader) LoadEntry(c px.Context, name px.TypedName) px.LoaderE
 		if entry == nil {
 			entry = &loaderEntry{nil, nil}
 		}
-		l.SetEntry(name, entry)
+		entry = l.SetEntry(name, entry)
 	}
 	return entry
 }
